@@ -151,9 +151,18 @@ func c12(e *Env) {
 		}
 		return len(en)
 	}
+	forgetful := c.Choose("forgetful-nodes", 2) == 1
 	w.DoWork = func(k int) {
 		cl := f.clients[en[k]]
 		sent++
+		if forgetful && c.Choose("forget", 6) == 5 {
+			// a node loses its prepared statements (restart): the next EXECUTE there is answered
+			// UNPREPARED, the proxy re-prepares on its own account and executes again; what the
+			// proxy knows about the statement (SELECT or not) must survive that
+			n := w.Nodes[c.Choose("forgetnode", len(w.Nodes))]
+			n.Prepared = map[string]string{}
+			e.Res.Stats["probe.c12.node_forgot_prepared_statements"]++
+		}
 		tok := w.NewToken()
 		g := world.GenRequest(c, cl.Version, tok, pw.execIDs, pw.execSelect, maxVal)
 		for g.Kind == "prepare" {
@@ -185,8 +194,13 @@ func c12(e *Env) {
 		w.Violate("c12-drain", "request-not-answered", "a forwarded request got no reply")
 		return
 	}
-	if len(w.BadFrames) > 0 {
-		bf := w.BadFrames[0]
+	for _, bf := range w.BadFrames {
+		if len(bf.Raw) > 4 && bf.Raw[4] == byte(primitive.OpCodePrepare) {
+			// a PREPARE the proxy replays from its cache on a connection with another compression
+			// than the preparing client's: the known finding of C08, not an overridden request
+			e.Res.Stats["probe.c12.c08_known_reprepare_frame_seen"]++
+			continue
+		}
 		w.Violate("c12-framing", "overridden-frame-not-well-framed", fmt.Sprintf("%s received a frame the reference codec cannot decode: %s", bf.Conn, bf.Err))
 		return
 	}
